@@ -36,7 +36,8 @@ impl Counter {
     pub fn available(&self, cx: &Context<'_>) -> (r: bool)
         ensures r == (self.count() < self.capacity()),
     { unimplemented!() }
-    /// one more live guard on this counter; the guard releases it when dropped
+    /// one more live guard on this counter; the guard releases it when dropped (one slot per handshake: `//@once`)
+//@once get
     #[verifier::external_body]
     pub fn get(&self) -> (g: CounterGuard)
         ensures g.of() == self.id(),
